@@ -58,6 +58,26 @@ class World:
         self.counters: Dict[str, int] = {}
         self.fs = SimFS(self)
         self.ids = SimId(self)
+        self._hashes: Dict[int, int] = {}
+        self._hash_keep: List[Any] = []
+
+    # -- simulated identity hash (covers set literals / comprehensions / dict keys, which
+    #    the `set` seam cannot intercept): one value per object, from the schedule seed and
+    #    the order in which objects are first hashed (deterministic for a given program)
+    def sim_hash(self, obj: Any) -> int:
+        key = builtins.id(obj)
+        h = self._hashes.get(key)
+        if h is None:
+            n = len(self._hashes) + 1
+            if self.mode in ("insertion", "asc"):
+                h = n  # small ascending ints: real sets then iterate in creation order
+            elif self.mode in ("reverse", "desc"):
+                h = (1 << 20) - n
+            else:
+                h = h64(self.sched_seed, "hash", n) >> 3
+            self._hashes[key] = h
+            self._hash_keep.append(obj)
+        return h
 
     # -- labels ----------------------------------------------------------------------
     def label(self, obj: Any, label: str, **attrs: Any) -> None:
@@ -129,12 +149,19 @@ class World:
         raise ValueError(mode)
 
 
+def _sim_hash(self) -> int:
+    w = CURRENT
+    if w is None:
+        return object.__hash__(self)
+    return w.sim_hash(self)
+
+
 def _order_sensitive(x: Any) -> bool:
     """True when CPython's iteration order of a set holding x is not a function of the
     program alone: identity-hashed objects (address) and str (hash randomisation)."""
     if isinstance(x, str):
         return True
-    return type(x).__hash__ is object.__hash__
+    return type(x).__hash__ in (object.__hash__, _sim_hash)
 
 
 class SimSet(MutableSet):
@@ -521,7 +548,49 @@ def install_id() -> None:
     _inject("classy_blocks.construct.shapes.sphere", "id", _sim_id)
 
 
+_HASH_PATCHED: List[type] = []
+
+
+def install_simhash() -> int:
+    """Every identity-hashed class defined in classy_blocks gets a scheduler-owned __hash__
+    (equality stays identity).  Real sets / dicts of such objects then iterate in an order
+    that is a function of the schedule seed instead of memory addresses."""
+    import inspect
+
+    import classy_blocks  # noqa: F401
+
+    n = 0
+    for name in sorted(sys.modules):
+        if not (name == "classy_blocks" or name.startswith("classy_blocks.")):
+            continue
+        mod = sys.modules[name]
+        if mod is None:
+            continue
+        for _, cls in inspect.getmembers(mod, inspect.isclass):
+            if getattr(cls, "__module__", "").startswith("classy_blocks") and cls not in _HASH_PATCHED:
+                if cls.__dict__.get("__hash__", "absent") == "absent" and cls.__hash__ is object.__hash__ and "__eq__" not in cls.__dict__:
+                    if issubclass(cls, BaseException):
+                        continue
+                    try:
+                        cls.__hash__ = _sim_hash  # type: ignore
+                    except TypeError:
+                        continue
+                    _HASH_PATCHED.append(cls)
+                    n += 1
+    return n
+
+
+def uninstall_simhash() -> None:
+    while _HASH_PATCHED:
+        cls = _HASH_PATCHED.pop()
+        try:
+            del cls.__hash__
+        except (AttributeError, TypeError):
+            pass
+
+
 def uninstall_all() -> None:
+    uninstall_simhash()
     while _INSTALLED:
         mod, name, old, had = _INSTALLED.pop()
         if had:
@@ -540,6 +609,7 @@ def install_standard() -> None:
     install_set()
     install_fs()
     install_id()
+    install_simhash()
 
 
 class run_world:
